@@ -40,4 +40,10 @@ TEXTS = {
         "note": "trusted: Lean kernel + audited axioms; hand-written model of altroot.rs/path.rs tied by the record and tree streams; PathBuf::join modelled; symlinks outside the property; raw trait calls with non-canonical strings are outside the statement (raw_call_escapes shows they do escape)",
         "technique": "Lean 4 proof over hand-written model + differential correspondence check",
     },
+    "C20": {
+        "level": "Lean 4 theorems (compositional, for arbitrary inner filesystems that themselves report a fired fault as the injected error): every VfsPath operation incl. create_dir_all, remove_dir_all, copy_file, move_file, copy_dir, move_dir, read_to_string and each step of walk_dir, every AltrootFS method and every OverlayFS method (any number of layers, any nesting) returns or yields the injected error whenever the planned fault fires during it — never ok, never a panic, never a kind that a caller swallows; corollary ok => the fault did not fire. The historical OverlayFS::exists is proved unfaithful. With C08: lower layers are unmodified under every fault plan. Tied to the code by the fault stream: a fault-injecting FileSystem wrapper fails the k-th underlying call for every k of every explored operation on 11 configurations; result, fired flag and snapshot vs model, and the property itself (error, or full-effect snapshot; no panic; lower layers unchanged).",
+        "design_ref": "DESIGN.md §6 C20",
+        "note": "trusted: Lean kernel + audited axioms (3 examples use decide +kernel: kernel evaluation, no axiom); hand-written models of path.rs/altroot.rs/overlay.rs tied by the fault stream; functional correctness of the fallback routes is C01-C11, not C20",
+        "technique": "Lean 4 proof (faithfulness calculus) over hand-written model + exhaustive fault-position enumeration against the real code",
+    },
 }
